@@ -112,9 +112,9 @@ pub fn run(opts: &Opts) -> i32 {
                 }
                 // synthesised damage on some sources
                 let mut label = format!("v{version}");
-                if rng.chance(1, 4) {
+                if rng.chance(1, 3) {
                     let mut img = std::fs::read(&src).unwrap();
-                    let name = match rng.below(3) {
+                    let name = match rng.below(4) {
                         0 => {
                             // an ambiguous legacy tombstone
                             let nb = img.len() / 4096;
@@ -125,6 +125,7 @@ pub fn run(opts: &Opts) -> i32 {
                             img[s * 4096..s * 4096 + 8].copy_from_slice(b"\0DELETED");
                             "legacy-tombstone"
                         }
+                        1 => crate::mutimg::pending_batch_journal(&mut rng, &mut img).unwrap_or("none"),
                         _ => crate::mutimg::mutate(&mut rng, &mut img),
                     };
                     std::fs::write(&src, &img).unwrap();
